@@ -3,12 +3,13 @@
 check(s) of the properties it breaks, undo, and print one line per change. Exit 1 if any change is no longer caught.
 /repo must be clean; nothing else may use /repo or ./check while this runs."""
 import json, os, subprocess, sys, glob, re
-os.chdir("/verif")
+ROOT = os.environ.get("SEEDALL_ROOT", "")   # "" = the real /verif and /repo; "/tmp/x1" = a scratch copy (mkws.sh)
+os.chdir(f"{ROOT}/verif")
 def sh(c):
     p = subprocess.run(c, shell=True, stdout=subprocess.PIPE, stderr=subprocess.STDOUT, text=True)
     return p.returncode, p.stdout
-if sh("git -C /repo status --porcelain --untracked-files=no")[1].strip():
-    print("/repo is not clean"); sys.exit(2)
+if sh(f"git -C {ROOT}/repo status --porcelain --untracked-files=no")[1].strip():
+    print(f"{ROOT}/repo is not clean"); sys.exit(2)
 missed = []
 for d in sorted(glob.glob("seeded/*/")):
     sid = os.path.basename(d.rstrip("/"))
@@ -16,7 +17,7 @@ for d in sorted(glob.glob("seeded/*/")):
         continue
     meta = json.load(open(d + "meta.json"))
     props = meta.get("what_was_run", {}).get("properties") or [meta["breaks_property"]]
-    rc, o = sh(f"git -C /repo apply /verif/{d}patch.diff")
+    rc, o = sh(f"git -C {ROOT}/repo apply {ROOT}/verif/{d}patch.diff")
     if rc != 0:
         print(f"{sid}: PATCH DOES NOT APPLY"); missed.append(sid); continue
     try:
@@ -26,7 +27,7 @@ for d in sorted(glob.glob("seeded/*/")):
             v = [l for l in o.splitlines() if l.startswith("VIOLATION")]
             res.append((pr, rc, v[0][:120] if v else "-"))
     finally:
-        sh("git -C /repo checkout -- .")
+        sh(f"git -C {ROOT}/repo checkout -- .")
     caught = any(rc == 1 and v != "-" for _, rc, v in res)
     print(f"{sid}: {'caught' if caught else 'MISSED'} " + " | ".join(f"{p} exit={rc} {v}" for p, rc, v in res), flush=True)
     if not caught: missed.append(sid)
